@@ -64,9 +64,17 @@ macro_rules! words {
             if it.len() != hi - lo || it.size_hint() != (hi - lo, Some(hi - lo)) {
                 $st.bad(format!("{}: fresh iterator reports len {} / size_hint {:?}, list has {} entries", $name, it.len(), it.size_hint(), hi));
             }
+            let mut seen: Vec<Ent> = Vec::new();
             for i in 0..l {
                 let back = (bits >> i) & 1 == 1;
                 let got = if back { it.next_back().map($proj) } else { it.next().map($proj) };
+                if let Some(g) = got {
+                    if seen.contains(&g) {
+                        $st.bad(format!("{}: word {} step {}: yielded {:?} a second time (a second live reference to the same entry)", $name, word_str(bits, l), i, g));
+                        break;
+                    }
+                    seen.push(g);
+                }
                 let want = if lo == hi {
                     None
                 } else if back {
@@ -105,10 +113,18 @@ macro_rules! words {
                     if which == 0 {
                         let got = it.nth(n).map($proj);
                         let want = if lo + n < hi { Some(seq[lo + n]) } else { None };
+                        let lo2 = (lo + n + 1).min(hi);
+                        let back = it.next_back().map($proj);
+                        let want_back = if lo2 < hi { Some(seq[hi - 1]) } else { None };
+                        let hi2 = if lo2 < hi { hi - 1 } else { hi };
                         let after = it.next().map($proj);
-                        let want_after = if lo + n + 1 < hi { Some(seq[lo + n + 1]) } else { None };
-                        if got != want || after != want_after {
-                            $st.bad(format!("{}: {}nth({}) yielded {:?} and then next() {:?}, expected {:?} and {:?} (list MRU-first {:?})", $name, pre_s, n, got, after, want, want_after, $expect));
+                        let want_after = if lo2 < hi2 { Some(seq[lo2]) } else { None };
+                        if got != want || back != want_back || after != want_after {
+                            let alias = (got.is_some() && (got == back || got == after)) || (back.is_some() && back == after);
+                            $st.bad(format!(
+                                "{}: {}nth({}) yielded {:?}, then next_back() {:?}, then next() {:?}; expected {:?}, {:?}, {:?}{} (list MRU-first {:?})",
+                                $name, pre_s, n, got, back, after, want, want_back, want_after, if alias { " - an entry was yielded a second time (a second live reference to the same entry)" } else { "" }, $expect
+                            ));
                         }
                     } else {
                         let got = it.nth_back(n).map($proj);
@@ -143,7 +159,12 @@ macro_rules! words {
             }
             let cnt = it2.count();
             if last != want_last || cnt != hi - lo {
-                $st.bad(format!("{}: after {:?} step(s) last() is {:?} and count() {}, expected {:?} and {} (list MRU-first {:?})", $name, pre, last, cnt, want_last, hi - lo, $expect));
+                // a fold-based consumer that runs past the other cursor hands out entries the back end already gave away
+                let alias = pre == 2 && (cnt > hi - lo || (last.is_some() && seq.len() > hi && last == Some(seq[hi])));
+                $st.bad(format!(
+                    "{}: after {} last() is {:?} and count() {}, expected {:?} and {}{} (list MRU-first {:?})",
+                    $name, ["no step", "one next()", "one next_back()"][pre as usize], last, cnt, want_last, hi - lo, if alias { " - an entry was yielded a second time (a second live reference to the same entry)" } else { "" }, $expect
+                ));
             }
         }
     }};
